@@ -49,8 +49,15 @@ Theorem C09_append_child_preserves : forall h0 r x t h' res,
 Proof. exact append_child_inv. Qed.
 Print Assumptions C09_append_child_preserves.
 
-(* one step / any finite history over the operations proved so far (append_child, waveform setter, both repetition
-   setters, duration / body_duration queries, ==, no-op), arbitrary target paths and arguments *)
+(* dst.append_child(src.copy_tree_structure(new_parent)): any source node, any new_parent argument, any live target *)
+Theorem C09_copy_append_preserves : forall h0 r d x np h' res,
+  Inv h0 r -> reach h0 r d -> (c <- copy_tree_structure x np ;; append_child d c) h0 = (h', res) -> ok_result res ->
+  Inv h' r.
+Proof. intros h0 r d x np h' res. apply append_fresh_inv. apply copy_fresh. Qed.
+Print Assumptions C09_copy_append_preserves.
+
+(* one step / any finite history over the operations proved so far (append_child of a fresh tree or of a copy, waveform
+   setter, both repetition setters, duration / body_duration queries, ==, no-op), arbitrary target paths and arguments *)
 Theorem C09_step_partial : forall s o s' out,
   sInv s -> proved_op' o = true -> step s o = (s', out) -> out_ok out -> sInv s'.
 Proof. exact step_partial'. Qed.
